@@ -73,6 +73,10 @@ def structured_matrix(draw, n, p, exact=None, boundary_positions=(), max_shifts=
     if not exact and min_noise_scale is not None:
         sc = draw(st.floats(min_noise_scale, 2.0))
         X = [[v * sc for v in row] for row in X]
+        if draw(st.integers(0, 3)) > 0:
+            # deterministic dither (Weyl sequence) so that slices are rarely exactly constant
+            X = [[v + sc * ((((i + 1) * 0.6180339887498949 + (j + 1) * 0.7548776662466927) % 1.0) - 0.5)
+                  for j, v in enumerate(row)] for i, row in enumerate(X)]
     pos = st.integers(0, n - 1)
     if boundary_positions:
         bp = [b for b in boundary_positions if 0 <= b <= n - 1]
